@@ -29,9 +29,7 @@ func main() {
 
 	c09.Component(r)
 
-	c09.L2Describe(r)
-	n := r.Pick(c09.L2QuickScenarios, c09.L2ThoroughScenarios)
-	l2.RunScenarios(r, n, c09.L2ChildTimeout, c09.L2Scenario)
+	c09.L2Run(r)
 
 	r.Finish(c09.MinDistinct + c09.L2MinDistinct)
 }
